@@ -29,9 +29,9 @@ fn c20_variant_detection_on_arbitrary_window() {
 }
 
 // canary
-// @verif prop=C20 id=canary tier=quick expect=fail unwind=4 bound="deliberately wrong: claims nothing is ever detected as BCF" fns="detect_format"
+// @verif prop=C20 id=canary tier=quick expect=fail unwind=6 bound="deliberately wrong: claims nothing is ever detected as BCF" fns="detect_format"
 #[kani::proof]
-#[kani::unwind(4)]
+#[kani::unwind(6)]
 fn c20_canary_never_bcf() {
     let buf: [u8; 4] = kani::any();
     let mut src: &[u8] = &buf[..];
